@@ -124,6 +124,27 @@ func (prop) Shrink(in json.RawMessage) []json.RawMessage {
 				add(input{Kind: "prog", Mode: inp.Mode, Prog: q})
 			}
 		}
+		// 1b. fewer files: everything in the main file; one function moved to the main file; one package-level call dropped
+		if p.multiFile() || len(p.PkgCalls) > 0 {
+			q := cloneProg(p)
+			for _, f := range q.Funcs {
+				f.File = 0
+			}
+			q.PkgCalls = nil
+			add(input{Kind: "prog", Mode: inp.Mode, Prog: q})
+			for fi, f := range p.Funcs {
+				if f.File != 0 {
+					q := cloneProg(p)
+					q.Funcs[fi].File = 0
+					add(input{Kind: "prog", Mode: inp.Mode, Prog: q})
+				}
+			}
+			for ci := range p.PkgCalls {
+				q := cloneProg(p)
+				q.PkgCalls = append(q.PkgCalls[:ci:ci], q.PkgCalls[ci+1:]...)
+				add(input{Kind: "prog", Mode: inp.Mode, Prog: q})
+			}
+		}
 		// 2. drop one statement (anywhere), keeping the last statement of every body
 		for fi := range p.Funcs {
 			n := countStmts(p.Funcs[fi].Body)
@@ -314,6 +335,12 @@ func tcall(fun string, target int, res []Ty, args ...*Expr) *Expr {
 	return &Expr{K: "call", Fun: fun, IsSig: true, CRes: res, PErr: []bool{false, true, false}, Target: target + 1, Args: args}
 }
 
+func trueExpr() *Expr {
+	e := ident("true", Ty{K: "untyped"}, false, objTrue)
+	e.Lit = true
+	return e
+}
+
 func ret(es ...*Expr) *Stmt { return &Stmt{K: "return", Rhs: es} }
 
 func fixedPrograms() []*Prog {
@@ -416,6 +443,45 @@ func fixedPrograms() []*Prog {
 				grp("select", false, []*Stmt{grp("range", label, []*Stmt{lits()})}),
 				lits()})
 		}
+		p.Calls = callsOf(p)
+		out = append(out, p)
+	}
+	{ // literal-only functions of a package of five files: declared in an earlier, the same and a later file than
+		// the calls that name them, called from bodies and from package-level initialisers, one never called
+		// (seeded change C14-e: signatures registered file by file, a call seen before the declaration wins)
+		p := baseProg(false)
+		u := func(s string) *Expr { return lit(s, Ty{K: "untyped"}) }
+		res1, res2 := []Res{{Ty: tAny}}, []Res{{Ty: tAny}, {Ty: tErr}}
+		two := func() []*Stmt {
+			return []*Stmt{{K: "group", Head: "if", Blocks: [][]*Stmt{{ret(u(`"one"`))}}}, ret(u("2.5"))}
+		}
+		pair := func() []*Stmt {
+			return []*Stmt{{K: "group", Head: "if", Blocks: [][]*Stmt{{ret(trueExpr(), nilExpr())}}}, ret(u("120"), nilExpr())}
+		}
+		at := func(i, file int) int { p.Funcs[i].File = file; return i }
+		early := at(tableFn(p, "DeclaredEarlier", pkgA, 0, res1, two()), 1)
+		same := at(tableFn(p, "DeclaredSameFile", pkgA, 0, res1, two()), 2)
+		later := at(tableFn(p, "DeclaredLater", pkgA, 0, res1, two()), 3)
+		pairLater := at(tableFn(p, "PairDeclaredLater", pkgA, 0, res2, pair()), 3)
+		forVar := at(tableFn(p, "DeclaredLaterForVar", pkgA, 0, res1, []*Stmt{ret(u("7"))}), 2)
+		at(tableFn(p, "NeverCalled", pkgA, 0, res1, two()), 3)
+		inMain := at(tableFn(p, "DeclaredInMainFile", pkgA, 0, res1, two()), 0)
+		args := func() []*Expr { return []*Expr{one(), nilExpr(), nilExpr()} }
+		for _, file := range []int{1, 2, 0, 3} { // one caller per file, each calling everything
+			tableFn(p, fmt.Sprintf("Use%d", file), pkgA, 0, []Res{{Ty: tAny}, {Ty: tAny}, {Ty: tAny}, {Ty: tAny}, {Ty: tErr}}, []*Stmt{
+				{K: "group", Head: "if", Blocks: [][]*Stmt{{ret(
+					tcall("DeclaredEarlier", early, []Ty{tAny}, args()...),
+					tcall("DeclaredSameFile", same, []Ty{tAny}, args()...),
+					tcall("DeclaredLater", later, []Ty{tAny}, args()...),
+					tcall("DeclaredInMainFile", inMain, []Ty{tAny}, args()...),
+					nilExpr())}}},
+				ret(u("0"), u("0"), u("0"), tcall("DeclaredLaterForVar", forVar, []Ty{tAny}, args()...), nilExpr()),
+			})
+			p.Funcs[len(p.Funcs)-1].File = file
+			tableFn(p, fmt.Sprintf("Fwd%d", file), pkgA, 0, res2, []*Stmt{ret(tcall("PairDeclaredLater", pairLater, []Ty{tAny, tErr}, args()...))})
+			p.Funcs[len(p.Funcs)-1].File = file
+		}
+		p.PkgCalls = []PkgCall{{Pkg: pkgA, File: 1, F: forVar}, {Pkg: pkgA, File: 0, F: pairLater}, {Pkg: pkgA, File: 3, F: early}}
 		p.Calls = callsOf(p)
 		out = append(out, p)
 	}
